@@ -37,13 +37,21 @@ def run_property(prop: str, tier: str, root: Path, write: bool = True, quiet: bo
     spec = PROPS[prop]
     seed = int(os.environ.get("VERIF_SEED", "0") or 0)
     t0 = time.time()
+    undecided = []
     try:
         repo = Repo(root)
         rep = Report(prop, tier, repo)
         for rule in spec["rules"]:
-            rule(rep, repo)
+            # a rule that cannot decide (anchor vanished, idiom not understood) does not stop the other
+            # rules: violations found elsewhere are still reported; the run ends with exit 2 otherwise
+            try:
+                rule(rep, repo)
+            except AnalysisError as e:
+                undecided.append(str(e))
+            except RecursionError:
+                undecided.append(f"rule={getattr(rule, '__name__', rule)} recursion limit while analysing")
         selftest = None
-        if tier == "thorough" and spec.get("selftest"):
+        if tier == "thorough" and spec.get("selftest") and not undecided:
             from .selftest import run_selftest
 
             selftest = run_selftest(prop, spec, repo, seed)
@@ -96,12 +104,17 @@ def run_property(prop: str, tier: str, root: Path, write: bool = True, quiet: bo
                 "how_to_replay": f"/venv/bin/python -m sv --replay {rpath}",
             }, indent=1, ensure_ascii=False))
         print(f"VIOLATION property={prop} replay={rpath}")
+    for u in undecided:
+        print(f"ANALYSIS-ERROR property={prop} {u}")
+    if undecided and code == 0:
+        code = 2
     if selftest and selftest.get("broken"):
         for line in selftest["broken"]:
             print(f"ANALYSIS-ERROR property={prop} self-test: {line}")
         if code == 0:
             code = 2
     if write:
+        rep.analysed["undecided_rules"] = undecided
         write_evidence(prop, spec, rep, tier, seed, wall, new, listed, selftest)
     return code
 
@@ -180,6 +193,21 @@ def replay(path: str) -> int:
     return run_property(prop, "quick", Path(os.environ.get("SV_REPO", "/repo")), write=False)
 
 
+def _watchdog(seconds: int):
+    """A checker that does not finish is never a verdict: exit 2 after `seconds`."""
+    import signal
+
+    def on_alarm(signum, frame):
+        print(f"ANALYSIS-ERROR checker exceeded its time budget of {seconds} s")
+        os._exit(2)
+
+    try:
+        signal.signal(signal.SIGALRM, on_alarm)
+        signal.alarm(seconds)
+    except (ValueError, AttributeError):
+        pass
+
+
 def main(argv=None) -> int:
     ap = argparse.ArgumentParser(prog="sv")
     ap.add_argument("prop", nargs="?")
@@ -189,6 +217,7 @@ def main(argv=None) -> int:
     ap.add_argument("--all", action="store_true")
     ap.add_argument("--no-write", action="store_true")
     a = ap.parse_args(argv)
+    _watchdog(600 if a.tier == "thorough" or a.all else 240)
     if a.replay:
         return replay(a.replay)
     if a.all:
